@@ -84,6 +84,21 @@ CHECKS = {
         'model assumptions listed in the evidence (delete_function clears '
         'exclusivity; merge semantics of del through a multi-context)',
         'DESIGN.md section 2, C17'),
+    'C06': (
+        'metamorphic: Hypothesis-generated overload families evaluated under '
+        'all permutations of enumeration and registration order (and across '
+        'processes with different hash seeds)',
+        'Generated-input search over (family, call) biased by construction '
+        'to >=2 simultaneously matching candidates per layer; the harness '
+        'owns the enumeration order through a Context subclass and runs '
+        'every permutation of every layer (<=4 candidates, else 24), three '
+        'registration orders on the unmodified Context, and in the thorough '
+        'tier 8 subprocesses with different PYTHONHASHSEED and allocation '
+        'padding. Oracle: one outcome (payload tag + arguments, or exception '
+        'class) per (family, call). No reference model needed; C05 decides '
+        'which outcome is right.',
+        'order control assumes the runner only iterates what get_functions '
+        'returns', 'DESIGN.md section 2, C06'),
     'C03': (
         'exhaustive short token sequences + Hypothesis token soups / '
         'mutations / unicode text against a validity predicate',
